@@ -6,7 +6,7 @@ MODULE = "StorageModel.Properties.C06"
 THEOREMS = ["inv_init", "inv_step", "inv_tx", "inv_reachable", "absent_no_trace", "delete_no_trace",
             "delete_no_trace_owner", "cascade_no_trace", "delete_forgets", "recreate_fresh", "recreate_accepted_iff",
             "recreate_as_if_never_existed", "child_create_over_parent_reindexes", "child_create_over_parent_no_trace",
-            "rc_and_child_links_no_trace", "cascade_witness"]
+            "child_create_empty_name_rejected", "rc_and_child_links_no_trace", "cascade_witness"]
 
 A_IDS = {"61", "62", "63", "64"}
 
@@ -73,12 +73,16 @@ def extra_cmp(a, b, spec_mode):
 
 
 RULE = ("random histories (seeded) of 6-25 (quick) / 6-41 (thorough) transactions with 1-4 operations each over stores "
-        "A (3-4 ids), its child store A1 and B (3 ids): create A / create through the child store (a fifth of them over an existing plain parent) / update and patch "
-        "(checker subsets of name, alias, roles, owner, groups) / delete through parent or child store / create, update, "
-        "delete B; owners and groups mostly existing, sometimes missing; every history ends in a delete in its own "
-        "transaction; after every committed delete boltz.ValidateDeleted and an independent byte scan of the dump run, "
-        "ids are re-created constantly (small universe); non-trivial = at least one validated committed delete after >= 3 "
-        "other committed transactions; distinct = distinct case line")
+        "A (3-4 ids), its child store A1 and B (3 ids): create A / create through the child store with 0-2 child-owned "
+        "links (a fifth of them over an existing plain parent) / update and patch (17 checker subsets of name, alias, "
+        "roles, owner, dep, groups) / delete through parent or child store / ref-counted link increments, decrements and "
+        "SetLinkCount 0-3 (12 % of the operations, so counts of 2 and more are common) / create, update, delete B "
+        "(restricted while referenced through owner, cascading to the dependants through dep); owners, deps, groups "
+        "and pals mostly existing, sometimes missing; every history ends in a delete in its own transaction; after every "
+        "committed transaction boltz.ValidateDeleted and an independent byte scan of the dump run for every entity id "
+        "that existed before it and not after it (cascade victims included); ids are re-created constantly (small "
+        "universe); non-trivial = at least one validated committed delete after >= 3 other committed transactions; "
+        "distinct = distinct case line")
 
 ASSUMPTIONS = [
     "bbolt: buckets are finite maps, a transaction applies all of its writes or none (modelled)",
